@@ -97,6 +97,24 @@ def matrix_scale(case, dim_blocks):
 
 
 # ---------------------------------------------------------------- final formulae (Dij, DTi, viscosity, electrical conductivity)
+class FrozenDuck(Duck):
+    """composition independent of T and zero species enthalpies: thermal_conductivity returns the translational part k' alone,
+    with or without the thermal-diffusion terms"""
+
+    def calculate_species_enthalpies(self):
+        return np.zeros(len(self.species))
+
+
+def impl_kdash(case, charges):
+    """-> (k' through the default path, k' with DTterms_yn=False) or None where the system is singular"""
+    try:
+        with Prescribed(case["Q"]):
+            return (float(ft.thermal_conductivity(FrozenDuck(case["masses"], case["nd"], case["T"], charges), 0.001, True, 1e8)),
+                    float(ft.thermal_conductivity(FrozenDuck(case["masses"], case["nd"], case["T"], charges), 0.001, False, 1e8)))
+    except np.linalg.LinAlgError:
+        return None
+
+
 def impl_final(case, charges):
     """-> (D, DT, eta, sigma); D, DT, sigma are None where the diffusion systems are singular (a single species)"""
     duck = Duck(case["masses"], case["nd"], case["T"], charges)
@@ -199,13 +217,20 @@ def final_formulae(run, cases):
                [common.fhex(x) for x in c["nd"]] + [common.fhex(x) for x in charges] + [common.fhex(x) for x in c0.ravel()] + \
                [common.fhex(x) for x in a[0]] + [common.fhex(x) for x in a[1]] + [common.fhex(x) for x in bb[0]]
         vlines.append("values " + " ".join(toks))
-        vexp.append((c, D, DT, eta, sig))
+        vexp.append((c, D, DT, eta, sig, impl_kdash(c, charges) if D is not None else None))
     vout = common.run_driver("tr", vlines) if vlines else []
-    for (c, D, DT, eta, sig), o in zip(vexp, vout):
+    for (c, D, DT, eta, sig, kd), o in zip(vexp, vout):
         nb = c["nb"]
         v = [common.unhex(t) for t in o]
         mD, mDT = np.array(v[:nb * nb]).reshape(nb, nb), np.array(v[nb * nb:nb * nb + nb])
-        meta, msig = v[nb * nb + nb], v[nb * nb + nb + 2]
+        meta, mkd, msig = v[nb * nb + nb], v[nb * nb + nb + 1], v[nb * nb + nb + 2]
+        if kd is not None and np.isfinite(mkd):
+            for label, val in (("default path", kd[0]), ("DTterms_yn=False", kd[1])):
+                if np.isfinite(val) and common.relerr(val, mkd) > 1e-7:
+                    dis.append({"what": f"translational thermal conductivity ({label}): implementation {val!r}, model final formula on the implementation's own q matrix {mkd!r}",
+                                "error": common.relerr(val, mkd), "D_entry": [0, 0], "impl_D": float("nan"), "model_D": float("nan"), "nb": nb,
+                                "case": {"masses": c["masses"], "nd": c["nd"], "T": c["T"]}})
+                    break
         run.cov["traces_validated_against_impl"] += 1
         e_eta = common.relerr(meta, eta)
         if D is None:
